@@ -57,7 +57,8 @@ func shortFile(f string) string {
 type Gen struct {
 	lentAt map[ssa.Value]map[ssa.Instruction]bool // allocation -> calls that borrow it
 	escCache map[ssa.Value][]ssa.Instruction // allocation -> uses through which its reference may escape
-	applyLines map[int][]*AtCall // source line -> lemma applications (apply-at)
+	applyLines map[int][]*AtCall // source line -> lemma applications (apply-at) and assertions (assert-at)
+	assertedAt map[*AtCall]bool
 	loopEntry map[*loopInfo]*State // state in which each loop was entered
 	sliceLos []string // lower bounds of slice expressions seen so far (instantiation candidates)
 	*Ctx
@@ -818,7 +819,7 @@ func (g *Gen) entryState(b *ssa.BasicBlock, init *State) (*State, string) {
 		gv := g.cs.Ghosts[k]
 		v, _ := mergeTerm(func(s *State) (string, bool) { return g.ghostGet(s, k), true },
 			func() string {
-				if strings.HasPrefix(k, "lock.held.") {
+				if strings.HasPrefix(k, "lock.") {
 					return "Bool"
 				}
 				return g.sortOf(g.resolveType(gv.Type, g.pkgTypes()))
@@ -854,8 +855,16 @@ func (g *Gen) ghostGet(st *State, name string) string {
 	if v, ok := st.ghost[name]; ok {
 		return v
 	}
-	if strings.HasPrefix(name, "lock.held.") {
-		return "false" // no lock of the function's order is held on entry (callers are not tracked)
+	if strings.HasPrefix(name, "lock.") {
+		// "opt: holds=a,b": the caller holds these locks for writing (checked at call sites that are
+		// themselves under a lock contract); no other lock of the function's order is held on entry
+		l := strings.TrimPrefix(strings.TrimPrefix(name, "lock.wheld."), "lock.held.")
+		for _, h := range strings.Split(g.con.Opts["holds"], ",") {
+			if strings.TrimSpace(h) == l && l != "" {
+				return "true"
+			}
+		}
+		return "false"
 	}
 	gv := g.cs.Ghosts[name]
 	n := "ghost0." + sanitize(name)
@@ -881,7 +890,23 @@ func (g *Gen) block(b *ssa.BasicBlock, init *State) {
 			for _, ac := range g.applyLines[ln] {
 				if !appliedHere[ac] {
 					appliedHere[ac] = true
-					g.applyLemma(ac, g.envAtLocals(st), reach)
+					if ac.Apply {
+						g.applyLemma(ac, g.envAtLocals(st), reach)
+					} else if !g.assertedAt[ac] {
+						// assert-at: once, at the first block (in processing order) that reaches the line
+						if g.assertedAt == nil {
+							g.assertedAt = map[*AtCall]bool{}
+						}
+						g.assertedAt[ac] = true
+						env := g.envAtLocals(st)
+						s := g.mustEval(ac.Clause, env)
+						lab := ac.Clause.Label
+						if lab == "" {
+							lab = fmt.Sprint(ln)
+						}
+						o := g.addObl("assert-at", lab, implies(reach, s), in.Pos(), "assertion before \""+ac.AtText+"\": "+ac.Clause.Src, ac.Clause)
+						g.lightGoal(o, ac.Clause.E, env, reach)
+					}
 				}
 			}
 		}
